@@ -145,7 +145,8 @@ pub fn known_probe(trigger: &str) -> Option<bool> {
 // ------------------------------------------------------------------------------------------------
 
 fn gen_date(t: &mut Tape) -> (i64, i64, i64) {
-    match t.below(8) {
+    match t.below(9) {
+        8 => (1970, 1, 1),
         0 => (2016, 2, 29),
         1 => (2000, 2, 29),
         2 => (1, 1, 1),
@@ -327,6 +328,27 @@ fn run_c06(t: &mut Tape, _tier: Tier) -> RunOut {
         }
         Ok::<Vec<String>, String>(bad)
     });
+    // a second derivation on the same thread whose region/service *concatenate* to the same text
+    // ("us-east-1" + "s3/x" vs "us-east-1/s3" + "x"): the keys must still differ as the chain says
+    if t.chance(3) {
+        let (r2, s2) = (format!("{}/{}", region, "s3"), "x".to_string());
+        let (r1, s1) = (region.clone(), "s3/x".to_string());
+        let w1 = refm::keychain(secret.as_bytes(), &format!("{:04}{:02}{:02}", y, m, d), r1.as_bytes(), s1.as_bytes());
+        let w2 = refm::keychain(secret.as_bytes(), &format!("{:04}{:02}{:02}", y, m, d), r2.as_bytes(), s2.as_bytes());
+        let got = guard(&mut out, "consecutive derivations", || {
+            let ks = KSecretKey::<44>::from_str(&secret).map_err(|e| e.to_string())?;
+            let a: [u8; 32] = *ks.to_ksigning(date, &r1, &s1).as_ref();
+            let b: [u8; 32] = *ks.to_ksigning(date, &r2, &s2).as_ref();
+            let c: [u8; 32] = *ks.to_ksigning(date, &r1, &s1).as_ref();
+            Ok::<_, String>((a, b, c))
+        });
+        if let Some(Ok((a, b, c))) = got {
+            out.probe("consecutive_derivations_compared");
+            if a != w1[3] || b != w2[3] || c != w1[3] {
+                out.violate("C06", "derivation-equals-hmac-chain", format!("consecutive derivations on one thread for ({:?},{:?}) then ({:?},{:?}): a key differs from the reference chain (state carried between calls)", r1, s1, r2, s2));
+            }
+        }
+    }
     match r {
         Some(Ok(bad)) => {
             for b in bad {
@@ -1126,7 +1148,7 @@ pub fn registry() -> Vec<Profile> {
             id: "C06",
             title: "key derivation",
             run: run_c06,
-            required: &["chain_compared", "too_long_refused", "secret_with_nul_or_whitespace", "capacity[0]", "capacity[3]", "capacity[128]", "t_leap_day", "year_below_1000", "secret_len[0]", "secret_len[40]", "secret_len[41]"],
+            required: &["chain_compared", "too_long_refused", "secret_with_nul_or_whitespace", "consecutive_derivations_compared", "capacity[0]", "capacity[3]", "capacity[128]", "t_leap_day", "year_below_1000", "secret_len[0]", "secret_len[40]", "secret_len[41]"],
             rule: "key-store node: secrets of every byte length 0..66 (ASCII and multi-byte) against capacities {0,3,4,8,44,64,128}; at the default capacity the node derives through all five cache levels and all six shortcut entry points for dates over years 1-9999 (leap days, year ends) and regions/services incl. empty and non-ASCII, compared with the client's independent HMAC chain; distinct by (secret length, leap year, leap day, region/service lengths). Weakest fit for simulation: the statement is a pure function; the simulator contributes the second party and the calendar only.",
             quick_runs: 360000,
             thorough_runs: 4320000,
